@@ -39,6 +39,8 @@ EXPLANATION = (
   ' (LINT-l) no tuple / list / set display of the anchored modules lists the same computed component twice and no dict display repeats a key (a key or fingerprint built that way cannot tell apart what the missing component would have);'
   ' (STATE-share) no assignment stores a container field of one object (a field the package updates in place) into a field of another object without copying it, so an in-place update of one object never changes another;'
   " (ITEM-source) an object built once per item of an inner loop is filled only with values that derive from that item or do not vary with the loops, never with a value of the enclosing container standing where the item's own belongs;"
+  " (FIN-blocks, shared with C09) the guards of process_tti_block that skip user-data and comment blocks return without touching the reader's state (a skipped block between the parts of an extension sequence leaves the accumulated text in place);"
+  " (FIN-color, shared) the colour parser refuses a malformed <color> with the ValueError the readers catch, not through an operation that fails on the way (int(None), a missing group: TypeError / IndexError abort the read);"
   " (NUL-optarg) a field that a record of the package fills from an Optional constructor parameter (the annotation of a WebVTT start tag, ...) is passed to a function only under a None test, or to a function that neither dereferences that parameter unguarded nor rejects a non-instance with an exception;"
   " (NUL-arg) the result of a getter that returns None for a missing entry (get_style, get_initial_value, ...) is never passed straight into a function that dereferences that parameter without a None test, unless the key is drawn from the same container's own keys;"
   " (FIN-resume) the codec error handler of the STL reader, evaluated on the ranges the package's decoders report (including a two-byte range that ends past the buffer), returns the resume position error.end and does not fail;"
@@ -246,6 +248,9 @@ def check_optional_fields(ctx):
 
 
 def run(ctx):
+  common.check_shared_helpers(ctx, color=True)
+  from . import c09 as _c09b
+  _c09b.check_block_filter(ctx)
   from ..rules import live as _live_a
   ctx.floor("LIVE-alias", "loops of the model that read a view of self and fill another object of the same class", _live_a.check_live_self_alias(ctx, ctx.ix.funcs_in("ttconv.model")), 3)
   from . import c03 as _c03u
